@@ -7,8 +7,6 @@ package main
 
 import (
 	"fmt"
-	"os"
-	"runtime/pprof"
 	"strings"
 
 	"verifharness/valgen"
@@ -80,11 +78,6 @@ func unmodelledLeaf(t *valgen.Ty, gt *valgen.GT) bool {
 
 func main() {
 	mode, tier, path := vh.Args()
-	if pf := os.Getenv("SVAL_PROF"); pf != "" {
-		f, _ := os.Create(pf)
-		pprof.StartCPUProfile(f)
-		defer pprof.StopCPUProfile()
-	}
 	if mode == "replay" {
 		for _, l := range vh.ReadLines(path) {
 			fmt.Println(exec(l))
